@@ -942,6 +942,48 @@ func (s *c08Sess) bodySplitEpisode() {
 	}
 }
 
+// indexEchoEpisode: the index of a body, as the server serves it, is ingested again through POST index/<label>
+// (data consistent with the voxels); nothing any view shows may change
+func (s *c08Sess) indexEchoEpisode() {
+	w := s.w
+	var n *wnode
+	for _, x := range w.open() {
+		if x.lm != nil {
+			n = x
+		}
+	}
+	if n == nil {
+		return
+	}
+	var ids []uint64
+	for b := range w.lmBodies(n) {
+		ids = append(ids, b)
+	}
+	if len(ids) == 0 {
+		return
+	}
+	sort.Slice(ids, func(i, j int) bool { return ids[i] < ids[j] })
+	b := ids[w.r.Intn(len(ids))]
+	r, ok := s.get(n, fmt.Sprintf("index/%d", b), nil)
+	if !ok || !r.OK() || len(r.Body) == 0 {
+		return
+	}
+	pr, alive := s.ch.HTTP("POST", fmt.Sprintf("node/%s/lm/index/%d", n.uuid, b), r.Body)
+	w.log("episode: index of body %d (%d bytes, as served) ingested again at v%d -> %d %s", b, len(r.Body), n.v, pr.Code, trunc(string(pr.Body)))
+	if !alive {
+		s.dead = true
+		s.fail("C08 server-died index-ingest", "the server process died during an index ingest", s.ch.StderrTail(14))
+		return
+	}
+	if !pr.OK() {
+		s.fail("C08 index-ingest-fails", "ingesting the index of a body exactly as the server serves it is refused", pr.String())
+		return
+	}
+	w.settle()
+	s.c.Count("episode index-echo")
+	s.checkVersion(n)
+}
+
 func runC08(c *Ctx) {
 	c.Rule = "a case is one body (or one whole-version read) of one version of a labelmap after a generated history of block ingests, mutating block overwrites (new and re-used supervoxels, supervoxels spanning blocks, background), merges, cleaves, supervoxel splits and renumberings interleaved with commit / new version / branch, compared with a scan of the written voxels under that version's supervoxel→body mapping: size, supervoxels, supervoxel-sizes, index (per block and supervoxel), sparsevol (rles, srles), sparsevol-coarse, sparsevol-size, raw and blocks (mapped and supervoxels), labels, label/<pt>, mapping, sizes, listlabels, existing-labels, maxlabel — at every version, so ancestors and siblings are re-checked after later operations; or one label-index operation compared with the Lean model. non-trivial = the body has several supervoxels or spans several blocks; distinct by content"
 	c.c08Index(map[bool]int{false: 600, true: 6000}[c.Thorough])
@@ -971,6 +1013,10 @@ func runC08(c *Ctx) {
 			}
 			if i == episodeAt+6 {
 				s.cleaveMergeBackEpisode()
+				continue
+			}
+			if i == episodeAt+7 || i == episodeAt+12 {
+				s.indexEchoEpisode()
 				continue
 			}
 			if i == episodeAt+8 || i == episodeAt+11 || i == episodeAt+13 {
